@@ -1,5 +1,5 @@
 #!/venv/bin/python
-"""Binding demonstration (DESIGN.md 10.5): recorded traces of the real code are accepted by the trace specifications,
+"""Binding demonstration (DESIGN.md 10.6): recorded traces of the real code are accepted by the trace specifications,
 and the same traces with ONE recorded field flipped / one event removed are rejected.  Exit 0 iff every demonstration
 behaves that way.  Not a registered check."""
 import copy
